@@ -16,7 +16,7 @@ from .c03 import _norm, _same
 
 OPS = ["set_vertices", "set_values", "rename", "move", "copy", "remove_vertices", "remove_data", "add_data", "reopen",
        "group_membership", "remove_object", "set_flags", "set_cells", "remove_cells", "modify_values", "modify_vertices", "empty_group",
-       "create_deferred", "move_data", "foreign_membership"]
+       "create_deferred", "move_data", "foreign_membership", "readd_removed_data", "detach_all_from_group"]
 FLAGS = ("public", "visible", "allow_delete", "allow_move", "allow_rename")
 
 
@@ -74,6 +74,7 @@ class OpSequence(Scenario):
     pid = "C01"
     include_io = True
     compare_tree = True         # C02 re-uses the sequences with a structural validator instead (harness/c02.py)
+    skip_ops = ()               # operations a re-using check leaves out
 
     def after_close(self, cx, h5file, seq):
         return None
@@ -103,6 +104,8 @@ class OpSequence(Scenario):
         d1 = o.add_data({"D1": {"values": real_np.arange(3.0)}})
         d2 = o.add_data({"D2": {"values": real_np.array([7, 8, 9], dtype="int32"), "type": "integer"}})
         o.find_or_create_property_group(name="PG", properties=[d1.uid])
+        ContainerGroup.create(ws, name="Sub", parent=g)
+        g.add_comment("a comment on G", author="me")
         p = Points.create(ws, vertices=real_np.arange(9.0).reshape(3, 3) + 2, name="P", parent=h)
         s1 = p.add_data({"S1": {"values": real_np.arange(3.0) + 4}})
         uid = {"g": g.uid, "h": h.uid, "o": o.uid, "d1": d1.uid, "d2": d2.uid, "p": p.uid, "s1": s1.uid}
@@ -126,6 +129,9 @@ class OpSequence(Scenario):
                 # a removed object is not operated on again (a lookup may still find it until the collector has run)
                 o = None if st.get("removed") else get("o")
                 try:
+                    if op in self.skip_ops:
+                        done.append(f"{op}: left out")
+                        continue
                     if op == "reopen":
                         st["ws"].close()
                         st["ws"] = Workspace(ws.h5file)
@@ -204,8 +210,24 @@ class OpSequence(Scenario):
                         o.vertices = arr
                     elif op == "empty_group":
                         o.find_or_create_property_group(name=f"empty at {t}")
+                    elif op == "readd_removed_data":     # a removed data set is created again under its old identifier
+                        d = get("d2")
+                        if d is not None:
+                            st["ws"].remove_entity(d)
+                            del d
+                        import gc as _gc
+                        _gc.collect()
+                        nv = shape(o.vertices)[0]
+                        o.add_data({"D2 again": {"values": mk_array(X, [cx.int(f"s{t}r{i}", -50, 50) for i in range(nv)], (nv,), "int32"),
+                                                 "type": "integer", "uid": uid["d2"]}})
+                    elif op == "detach_all_from_group":  # children of several kinds detached from their group in one call
+                        grp = get("g")
+                        grp.remove_children(list(grp.children))
+                        st["removed"] = st.get("removed") or (o.parent is not None and o.parent.uid == uid["g"])
                     elif op == "create_deferred":       # creation with the write deferred to the close
-                        st["ws"].create_entity(ContainerGroup, save_on_creation=False, entity={"name": f"deferred group at {t}"})
+                        dgp = st["ws"].create_entity(ContainerGroup, save_on_creation=False, entity={"name": f"deferred group at {t}"})
+                        Points.create(st["ws"], vertices=real_np.zeros((1, 3)) if False else mk_array(X, [0.0, 1.0, 2.0], (1, 3), "float64"),
+                                      name=f"child of deferred group at {t}", parent=dgp)
                         st["ws"].create_entity(Points, save_on_creation=False,
                                                entity={"name": f"deferred points at {t}", "parent": get("h"),
                                                        "vertices": mk_array(X, [cx.real(f"s{t}q{i}") for i in range(6)], (2, 3), "float64")})
@@ -276,7 +298,7 @@ def main(tier, seed):
         outside=["placement of garbage-collection points (weak-reference liveness): not modelled, the harness keeps no stale handles",
                  "drillhole groups, surveys, grids, text / referenced data in sequences (single operations on them: C03, C04, C08, C12)",
                  "sequences longer than the bound; more than one object", "project header attributes (open findings under C03)"],
-        bounds={"quick": "all sequences of 2 operations from an alphabet of 20 {set vertices, set values, rename, move, copy, remove a vertex, "
+        bounds={"quick": "all sequences of 2 operations from an alphabet of 22 {set vertices, set values, rename, move, copy, remove a vertex, "
                          "remove data, add data, close + re-open, property-group membership, remove object, set flags, set cells, remove a cell, "
                          "modify values / vertices in place and assign back, create an empty property group, create entities with deferred "
                          "write, move data to another object, ask a property group to list another object's data} on a "
